@@ -12,6 +12,7 @@
     under permutations, comparing bytes. *)
 From Coq Require Import Sorting.Permutation Sorting.Sorted.
 From Verif Require Import Base.Str Proofs.SortFacts.
+From Verif Require Import Gen.ImportTables Model.GoImports Spec.GoFileUses Proofs.ImportsOrder.
 Open Scope string_scope.
 Open Scope list_scope.
 
@@ -29,3 +30,39 @@ Print Assumptions C13_algorithm_partial.
 Example C13_example :
   sort_by (fun x : string => x) ["GetB"; "ListA"; "Del"] = sort_by (fun x : string => x) ["Del"; "GetB"; "ListA"].
 Proof. vm_compute. reflexivity. Qed.
+
+(** The importer (Model/GoImports.v, the transcription of imports.go tied to the code through the
+    verif hook on every case of the C01 check) builds its lists from three Go maps - stdlibTypes,
+    the std set and the pkg set - iterated in random order, then sort.Slice.  For every input:
+
+    - the import lists of every file do not depend on the order in which model structs and
+      queries reach the importer (so not on declaration order in the schema or the query files); *)
+Theorem C13_imports_declaration_order_partial : forall i i' file,
+  Permutation (gi_structs i) (gi_structs i') -> Permutation (gi_queries i) (gi_queries i') ->
+  gi_nenums i = gi_nenums i' -> gi_overrides i = gi_overrides i' -> gi_prepared i = gi_prepared i' ->
+  imports_of i file = imports_of i' file.
+Proof. exact imports_decl_order. Qed.
+Print Assumptions C13_imports_declaration_order_partial.
+
+(**  - whatever order [tbl'] Go iterates stdlibTypes in, and whatever enumeration [e] of the
+       resulting set `for path := range std` produces, the sorted list the template receives is
+       the same; *)
+Theorem C13_imports_map_order_partial : forall tbl' e uses base w,
+  Permutation stdlib_types tbl' -> NoDup base -> Permutation e (std_set_tbl tbl' uses base w) ->
+  sort_by (fun x : string => x) e = sort_by (fun x : string => x) (std_set uses base w).
+Proof. exact std_list_map_order. Qed.
+Print Assumptions C13_imports_map_order_partial.
+
+(**  - the same for the pkg list (sorted by path only) as long as no two specs share a path; with
+       one path under two aliases the emitted order is the iteration order (the hypothesis the
+       proof forces; gofmt's own import sorting runs on every emitted file and hides it). *)
+Theorem C13_imports_pkg_order_partial : forall (e s : list ispec),
+  NoDup (map snd s) -> Permutation e s -> sort_by (fun x : ispec => snd x) e = sort_by (fun x : ispec => snd x) s.
+Proof. exact pkg_list_map_order. Qed.
+Print Assumptions C13_imports_pkg_order_partial.
+
+Theorem C13_imports_same_path_refuted :
+  exists e1 e2 : list ispec, Permutation e1 e2
+    /\ sort_by (fun x : ispec => snd x) e1 <> sort_by (fun x : ispec => snd x) e2.
+Proof. exact pkg_list_same_path_refuted. Qed.
+Print Assumptions C13_imports_same_path_refuted.
